@@ -98,6 +98,15 @@ pub const EXTRA: &[&str] = &[
     "let q = (from t | filter a > 1 | select {a, b})\nfrom u | select {a, d} | intersect q | join q (==a)",
     "let q = (from t | select {a} | take 3)\nfrom q | select {a} | loop (join q (==a) | select {a = q.a + 1} | filter a < 5)",
     "let q = (from t | select {a} | take 3)\nfrom u | select {a} | loop (filter a < 3 | select {a = a + 1}) | append q | join q (==a)",
+    // a table of the database named like a let-relation of a module, both read by one query (either order)
+    "module mm { let t = (from src | take 3) }\nfrom t | join l = mm.t (==a) | select {t.a, l.b}",
+    "module mm { let t = (from src | take 3) }\nfrom l = mm.t | join t (==a) | select {t.a, l.b}",
+    "module mm { let t = (from src | take 3) }\nfrom t | append mm.t | join t2 = mm.t (==a)",
+    // boolean aggregates as window functions; `remove` where one side has no known column list
+    "from t | group a (derive {r = all (b > 0)})",
+    "from t | group a (derive {r = any (b > 0)})",
+    "from t | select {a, b} | remove u",
+    "from t | remove (from u | select {a, d})",
 ];
 
 const STD_CALLS: &[&str] = &[
@@ -274,6 +283,16 @@ fn cause(key: &str, d: &str, msg: &str, sql: &str, src: &str) -> String {
     }
     if key == "set-operation-arity" && sql.contains("INTERSECT") && src.contains("join") {
         return "join-rewritten-to-intersect-of-different-arity".into();
+    }
+    // sqlite renders `all` / `any` as `MIN(x) > 0` / `MAX(x) > 0`; used as a window function the OVER clause is
+    // appended to the comparison instead of the aggregate
+    if (key == "does-not-parse" || key == "engine-rejects") && d == "sqlite" && (sql.contains(") > 0 OVER (")) {
+        return "boolean-aggregate-as-window-function-over-after-comparison:sqlite".into();
+    }
+    // `remove` (and its anti-join fallback) where one side is only known through its wildcard: the wildcard itself
+    // is compared (`t.* = table_0.a`, `b.* IS NULL`)
+    if (key == "does-not-parse" || key == "engine-rejects") && src.contains("remove") && (sql.contains(".* = ") || sql.contains(".* IS NULL") || sql.split(" = ").skip(1).any(|r| r.split_whitespace().next().map(|w| w.ends_with(".*")).unwrap_or(false))) {
+        return "remove-over-open-relation-compares-the-wildcard".into();
     }
     if key == "does-not-parse" && d == "ansi" && msg.contains("found: _") {
         return "generated-helper-name-not-an-ansi-identifier".into();
